@@ -30,6 +30,6 @@ try:
 finally:
     subprocess.run(["git", "-C", REPO, "checkout", "--", "."])
     subprocess.run(["git", "-C", REPO, "clean", "-fdq"])
-json.dump({"tier": tier, "results": res}, open(os.path.join(m, "eval.json" if tier == "quick" else "eval_thorough.json"), "w"), indent=1)
+json.dump({"tier": tier, "results": res}, open(os.path.join(m, os.environ.get("MUT_OUT", "eval.json" if tier == "quick" else "eval_thorough.json")), "w"), indent=1)
 caught = [k for k, v in res.items() if v["exit"] == 1]
 print("CAUGHT BY:", caught, "| infra trouble:", [k for k, v in res.items() if v["exit"] not in (0, 1)])
